@@ -23,7 +23,8 @@ CHECKS['C05'] = dict(
     text='Kernel-checked theorem cfg_contains_executions: for every function skeleton (assign/if/while/for/break/continue/return/'
          'raise/try-except-else-finally/with, any nesting), every decision sequence and any fuel, the executed node trace is a path '
          'of the model graph from the entry to an exit node, jumps running through enclosing finally bodies and raises reaching '
-         'enclosing handlers (guard: no jump in an except body of a try with finally = known finding, with a refuted witness). '
+         'enclosing handlers -- no guard left: the handler-jump defect of cfg.py found by this check was repaired in /repo and the theorem '
+         'is now unconditional (regression witness kept). '
          'Tied on every run: the model graph is a sub-graph of what malt.pyct.cfg.build returns (same nodes, same error nodes) and '
          'the trace semantics reproduces real CPython line traces under logged decisions, on seeded generated programs; oracle checks '
          'Graph well-formedness (next/prev mirror, stmt_prev/stmt_next recomputed lexically) and path-ness of real traces on the real graph.',
